@@ -2948,6 +2948,12 @@ static void AssembleFile_InitPass(void) {
         pPhaseStacks[z] = NULL;
     }
 
+    /* the counters start before InitPass(): selecting the default target (-cpu name:arguments)
+       may already report errors */
+
+    ErrorCount = 0;
+    WarnCount  = 0;
+
     InitPass();
     AsmLabelPassInit();
 
@@ -2955,8 +2961,6 @@ static void AssembleFile_InitPass(void) {
     PCs[ActPC] = 0;
     RelSegs    = False;
     ENDOccured = False;
-    ErrorCount = 0;
-    WarnCount  = 0;
     LineSum    = 0;
     MacLineSum = 0;
     for (z = 1; z <= StructSeg; z++) {
@@ -3295,9 +3299,9 @@ static void AssembleFile(char* Name) {
     do {
         /* Durchlauf initialisieren */
 
+        AsmErrPassInit();
         AssembleFile_InitPass();
         AsmSubPassInit();
-        AsmErrPassInit();
         if (!QuietMode) {
             as_snprintf(Tmp, sizeof(Tmp), "%s", getmessage(Num_InfoMessPass));
             as_snprcatf(Tmp, sizeof(Tmp), "%" PRId32, PassNo);
